@@ -174,8 +174,9 @@ Definition tree_rows (events : list event) (enumeration : list pfile) : data :=
          of_list (fun t => DList [enc_pset (fst t); tree_meta ps (snd t)]) tabs].
 
 (* ----- the driver entry ----- *)
-(* T case: (T rows (perm ...))  : a table given as rows in dict insertion order,
-   and further insertion orders.  Answer: ((integer report, float report) of the first order,
+(* T case: (T rows (perm ...) (porder ...))  : a table given as rows in dict insertion order,
+   further insertion orders, and orders (index lists into the sorted platform list) in
+   which the platforms are handed to average_coverage.  Answer: ((integer report, float report) of the first order,
    1 iff every other order yields the same report, rows under the OLD key for
    the first order, 1 iff the OLD rows are the same under every order).
    P case: (P files events cov_events (perm ...)) : parsed files in enumeration
@@ -186,13 +187,16 @@ Definition t_answer (rows : list (pset * Z)) : data :=
   let sm := sm_build rows in
   DList [enc_table (table_report sm); float_report sm].
 
-Definition run_Tf (rows : list (pset * Z)) (perms : list (list Z)) : data :=
+Definition run_Tf (rows : list (pset * Z)) (perms porders : list (list Z)) : data :=
   let base := t_answer rows in
-  let old := enc_rows (summary_rows_old (sm_build rows)) in
+  let sm := sm_build rows in
+  let old := enc_rows (summary_rows_old sm) in
   DList [base;
          of_bool (forallb (fun ix => data_eqb base (t_answer (pick rows ix))) perms);
          old;
-         of_bool (forallb (fun ix => data_eqb old (enc_rows (summary_rows_old (sm_build (pick rows ix))))) perms)].
+         of_bool (forallb (fun ix => data_eqb old (enc_rows (summary_rows_old (sm_build (pick rows ix))))) perms);
+         (* average_coverage(setmap, platforms) with the platforms handed over in the given orders *)
+         of_list (fun ix => enc_fx (average_coverage_f sm (pick (platforms_of sm) ix))) porders].
 
 Definition p_answer_f (files : list pfile) (events cev : list event) : data :=
   let sm := get_setmap events (iter_codebase files) in
@@ -223,10 +227,10 @@ Definition run_Ff (files : list pfile) (events : list event) (perms : list (list
 
 Definition run_C14 (d : data) : data :=
   match d with
-  | DList [DStr "T"; rows; perms] =>
-      match as_list_of dec_row rows, as_list_of (as_list_of as_int) perms with
-      | Some r, Some p => run_Tf r p
-      | _, _ => bad_case
+  | DList [DStr "T"; rows; perms; porders] =>
+      match as_list_of dec_row rows, as_list_of (as_list_of as_int) perms, as_list_of (as_list_of as_int) porders with
+      | Some r, Some p, Some o => run_Tf r p o
+      | _, _, _ => bad_case
       end
   | DList [DStr "P"; files; events; cev; perms] =>
       match as_list_of dec_pfile files, as_list_of dec_event events, as_list_of dec_event cev,
